@@ -218,6 +218,17 @@ theorem bad_length_is_unreadable (w : Nat) (r : Registry) (sup : List Str) (h : 
   · simp [readRequestBody, hc, hl]
   · simp [readRequestBody, hc, hl, hn]
 
+/-- both framing headers present: Transfer-Encoding wins (RFC 7230 3.3.3) — the Content-Length value has no influence on what is
+    read, so no part of the chunked message can be left in the stream as a "next request" -/
+theorem both_headers_chunked_wins (w : Nat) (r : Registry) (sup : List Str) (h : Hdrs) (wire : Bytes) (cl : Option ClVal)
+    (hc : h.isChunked = true) :
+    readRequestBody w r sup { h with contentLength := cl } wire = readRequestBody w r sup h wire := by
+  have hc' : ({ h with contentLength := cl } : Hdrs).isChunked = true := by simpa [Hdrs.isChunked] using hc
+  simp only [readRequestBody, hc, hc', if_true]
+  cases dechunk w wire with
+  | error e => rfl
+  | ok p => simp [decodeBody]
+
 /-- a readable message followed by further requests: the connection goes on (keep-alive is not lost by the repair) -/
 theorem readable_message_keeps_connection {σ : Type} (lookup : RequestFlow.Stage Unit) (post : σ → RequestFlow.Stage RequestFlow.Response × σ)
     (rest : List (RequestFlow.HandlerEnv σ)) (s : σ) :
